@@ -9,6 +9,9 @@
 
 using namespace vf;
 extern "C" const vapi dflt_api;
+#ifndef VF_FUZZ
+extern "C" const vapi uchar_api;   // the same code compiled with -funsigned-char (plain char unsigned, as on ARM / PowerPC)
+#endif
 static const vapi *A = &dflt_api;
 static TailBuf TB(4096);
 static const Bytes *g_bytes;
@@ -21,6 +24,10 @@ static std::optional<Failure> check_one(Run &R, const Bytes &d) {
     bool want = ref::host_ok(d);
     int rc = part0(A, TB, VP_ASCII_DOMAIN, d);
     R.eval();
+#ifndef VF_FUZZ
+    { int ru = part0(&uchar_api, TB, VP_ASCII_DOMAIN, d); R.eval();
+      if (ru != rc) return Failure{"char-signedness", mkcase(d).str(), "domain '" + show(d) + "': is_ascii_domain returns " + std::to_string(rc) + " in the default build and " + std::to_string(ru) + " when plain char is unsigned (-funsigned-char)"}; }
+#endif
     size_t dots = std::count(d.begin(), d.end(), '.');
     if (dots >= 1 || d.size() >= 60 || d.find('-') != Bytes::npos) R.nontrivial(hashs(d));
     R.count(want ? "valid-host" : "invalid-host");
